@@ -229,9 +229,13 @@ def text_boundaries(rng, n):
                 parts.pop()
             els.append('<e id="e%d">%s</e>' % (j, "".join(parts)))
         dtd = '<!DOCTYPE r [<!ENTITY ent "E&#38;E"><!ENTITY long "%s">]>' % ("L" * 150)
-        out.append(inp("text-boundaries-%d" % k, ss(TEXTDUMP), doc("<r>%s</r>" % "".join(els), prolog=dtd)))
+        body = "<r>%s</r>" % "".join(els)
+        # control experiment "nocdata": the same document with its CDATA sections written as escaped character data
+        plain = body.replace("<![CDATA[<c>]]>", "&lt;c&gt;").replace("<![CDATA[]]>", "")
+        out.append(inp("text-boundaries-%d" % k, ss(TEXTDUMP), doc(body, prolog=dtd),
+                       ctl=["nocdata"] if plain != body else [], extra={"in_nocdata.xml": doc(plain, prolog=dtd)} if plain != body else None))
     return out
 
 
 def make_corpus(rng, ngen):
-    return handmade() + text_boundaries(rng, max(2, ngen // 6)) + generated(rng, ngen)
+    return handmade() + text_boundaries(rng, max(4, ngen // 6)) + generated(rng, ngen)
